@@ -203,9 +203,13 @@ let oracle (toks : string list) (obs : string) : (string * bool) list =
       | ("video" | "audio") :: _ :: _ :: "1" :: _ -> n + 1 | _ -> n) 0 ops in
   let marked = List.length (List.filter fst pk) in
   let checks = [ "C18.droppable_only_when_asked", marked <= asked_drop ] in
+  let checks = (match stamp_oracle ops (parse_obs obs) (Some 1) with Some b -> ("C18.messages_carry_expected_timestamp_and_stream", b) :: checks | None -> checks) in
   let checks = (match ack_oracle ops (parse_obs obs) with Some b -> ("C17.ack_exactly_when_due", b) :: checks | None -> checks) in
   let checks = c09_oracles ops (parse_obs obs) @ checks in
-  if has_failed_call obs then checks     (* statement restricted to histories without a failed call (DESIGN C18 / K2) *)
+  if has_failed_call obs then
+    (* histories in which a public call returned an error: the class of known finding K2 (a call that fails after it
+       serialized a packet loses the packet but keeps the serializer state) *)
+    checks @ [ "C18.decodable_despite_failed_call", decodable pk (fun _ _ -> true) ]
   else
     checks @ [ "C18.decodable", decodable pk (fun _ _ -> true);
                "C18.decodable_all_droppable_removed", decodable pk (fun _ d -> not d);
